@@ -84,11 +84,13 @@ add("keyword-dropped","C01","schema.go","\t\ts.Schema.UniqueItems,\n","\t\tfalse
 add("result-query-derefs-nil","C20","result.go","func (r *Result) Data() interface{} {\n\tif r == nil {\n\t\treturn nil\n\t}\n","func (r *Result) Data() interface{} {\n","RESULT-ALGEBRA:Data:nil-safe")
 add("empty-result-escapes","C04","schema.go","\t\treturn &Result{MatchCount: emptyResult.MatchCount}\n","\t\treturn emptyResult\n","EMPTY-IMMUTABLE:escape:(*SchemaValidator).Validate", quick=False)
 add("default-inserted-by-reference","C18","post/defaulter.go","key.Object()[key.Field()] = cloneValue(s.Default)","key.Object()[key.Field()] = s.Default","POST:ApplyDefaults:single-write", quick=False)
-add("null-member-skipped","C16","validator.go","\t\t\tif data == nil {\n\t\t\t\treturn nil\n\t\t\t}\n\n\t\t\tcontinue","\t\t\tcontinue","ENUM-CONVERT:basicCommonValidator:null-member", quick=False)
-add("enum-nil-guard","C14","values.go","\t\tif reflect.DeepEqual(data, enumValue) {\n\t\t\treturn nil // also when both are nil\n\t\t}\n\t\tif data != nil {\n","\t\tif data != nil {\n\t\t\tif reflect.DeepEqual(data, enumValue) {\n\t\t\t\treturn nil\n\t\t\t}\n","PURE:EnumCase:nil-member", quick=False)
 add("overlaps-in-map-order","C10","spec.go","\t\tfor _, path := range paths {\n\t\t\top := pi[path]\n","\t\tfor path, op := range pi {\n\t\t\t_ = paths\n","MAP-ORDER:(*SpecValidator).validateParameters", quick=False)
 add("dependency-errors-under-trigger","C17","schema_props.go","newSchemaValidator(dep.Schema, s.Root, s.Path, s.KnownFormats, s.Options)",'newSchemaValidator(dep.Schema, s.Root, s.Path+"."+key, s.KnownFormats, s.Options)',"SAME-DATUM-PATH:(*schemaPropsValidator).validateDependencies", quick=False)
 add("root-aliases-expanded-schema","C06","schema.go","\t\troot := *schema\n\t\trootSchema = &root\n","\t\trootSchema = schema\n","EXPAND-ROOT:newSchemaValidator:ExpandSchema:aliases-target", quick=False)
+add("enum-skips-nil-data","C14","values.go","\t\tif valuesEqual(data, enumValue) {\n\t\t\treturn nil\n\t\t}\n\t\tenumString","\t\tif data != nil && valuesEqual(data, enumValue) {\n\t\t\treturn nil\n\t\t}\n\t\tenumString","PURE:EnumCase:nil-member", quick=False)
+add("fraction-equals-integer","C14","values.go","\treturn isExactInt64(f) && int64(f) == i\n","\treturn int64(f) == i\n","EQUAL-TABLE:valuesEqual:exact")
+add("negative-equals-unsigned","C16","values.go","\treturn i >= 0 && uint64(i) == u\n","\treturn uint64(i) == u\n","NARROW:intEqualsUint", quick=False)
+add("unique-items-by-deep-equal-only","C14","values.go","\t\t\tif valuesEqual(v, u) {\n\t\t\t\treturn errors.DuplicateItems(path, in)","\t\t\tif reflect.DeepEqual(v, u) {\n\t\t\t\treturn errors.DuplicateItems(path, in)","PURE:UniqueItems:numeric-equality", quick=False)
 json.dump(C, open('/verif/tables/controls.json','w'), indent=1)
 import os
 for c in C:
